@@ -21,6 +21,10 @@ type c07 struct {
 	n        uint64 // effective budget
 	localAll bool   // requestor already holds everything (requestor side only)
 	needed   int
+	// a second request on the same nodes, after the first, with its own per-request budget
+	req2    *Req
+	perReq2 uint64
+	dag2    *DAG
 }
 
 func newC07() Scenario { return &c07{c02: c02{prop: "C07"}} }
@@ -77,26 +81,60 @@ func (s *c07) Build(w *World) {
 	}
 	s.a = NewNode(w, "A", acfg)
 	s.b = NewNode(w, "B", bcfg)
-	if s.perReq > 0 {
-		if s.side == "requestor" {
-			s.a.OnOutgoingRequest = func(p peer.ID, r graphsync.RequestData, a graphsync.OutgoingRequestHookActions) { a.MaxLinks(s.perReq) }
-		} else {
-			s.b.OnIncomingRequest = func(p peer.ID, r graphsync.RequestData, a graphsync.IncomingRequestHookActions) { a.MaxLinks(s.perReq) }
-		}
-	}
 	populate(s.a, s.dag, s.split.Rq)
 	populate(s.b, s.dag, s.split.Rs)
 	s.req = s.a.NewReq("r1", s.b, s.dag.Root, s.sel)
+	if !s.localAll && t.Chance(500) {
+		// budgets are per request: what the first one was given must not leak into the second
+		s.dag2 = GenDAG(t, GenCfg{MaxBlocks: 2 + t.Draw(14), MaxDepth: 1 + t.Draw(4), BlockPad: 9})
+		for _, c := range s.dag2.Order {
+			s.b.Store.Put(c, s.dag2.Blocks[c])
+		}
+		s.req2 = s.a.NewReq("r2", s.b, s.dag2.Root, s.sel)
+		if t.Chance(500) {
+			s.perReq2 = pick()
+		}
+	}
+	perReqOf := func(id graphsync.RequestID) uint64 {
+		if s.req2 != nil && id == s.req2.ID {
+			return s.perReq2
+		}
+		return s.perReq
+	}
+	if s.side == "requestor" {
+		s.a.OnOutgoingRequest = func(p peer.ID, r graphsync.RequestData, a graphsync.OutgoingRequestHookActions) {
+			if n := perReqOf(r.ID()); n > 0 {
+				a.MaxLinks(n)
+			}
+		}
+	} else {
+		s.b.OnIncomingRequest = func(p peer.ID, r graphsync.RequestData, a graphsync.IncomingRequestHookActions) {
+			if n := perReqOf(r.ID()); n > 0 {
+				a.MaxLinks(n)
+			}
+		}
+	}
 	w.AddProvider(func() []*Event {
 		if !s.req.Issued {
 			return []*Event{s.req.IssueEvent()}
+		}
+		if s.req2 != nil && !s.req2.Issued && s.req.Done() {
+			return []*Event{s.req2.IssueEvent()}
 		}
 		return nil
 	})
 }
 
 func (s *c07) Describe(w *World) string {
-	return fmt.Sprintf("side=%s global=%d perReq=%d N=%d needed=%d localAll=%v dag=%d sel=%s", s.side, s.global, s.perReq, s.n, s.needed, s.localAll, len(s.dag.Order), s.selDesc)
+	second := ""
+	if s.req2 != nil {
+		second = fmt.Sprintf(" then r2 perReq=%d", s.perReq2)
+	}
+	return fmt.Sprintf("side=%s global=%d perReq=%d N=%d needed=%d localAll=%v dag=%d sel=%s%s", s.side, s.global, s.perReq, s.n, s.needed, s.localAll, len(s.dag.Order), s.selDesc, second)
+}
+
+func (s *c07) Done(w *World) bool {
+	return s.req.Done() && (s.req2 == nil || s.req2.Done())
 }
 
 func budgetErr(errs []error) (n int, others []string) {
@@ -112,6 +150,38 @@ func budgetErr(errs []error) (n int, others []string) {
 }
 
 func (s *c07) Final(w *World) *Violation {
+	if v := s.finalFor(w, s.req, s.n); v != nil {
+		return v
+	}
+	if s.req2 != nil {
+		n2 := s.global
+		if n2 == 0 || (s.perReq2 != 0 && s.perReq2 < n2) {
+			n2 = s.perReq2
+		}
+		saveDag := s.dag
+		s.dag = s.dag2
+		v := s.finalFor(w, s.req2, n2)
+		s.dag = saveDag
+		if v != nil {
+			v.Signature = "second-request:" + v.Signature
+			return v
+		}
+	}
+	return nil
+}
+
+// finalFor checks one request against the budget that applies to it (0 = none).
+func (s *c07) finalFor(w *World, rq *Req, budget uint64) *Violation {
+	saveReq, saveN := s.req, s.n
+	s.req, s.n = rq, budget
+	defer func() { s.req, s.n = saveReq, saveN }()
+	if budget == 0 {
+		s.n = 1 << 40 // no budget applies: it must behave as with an unlimited one
+	}
+	return s.finalOne(w)
+}
+
+func (s *c07) finalOne(w *World) *Violation {
 	if !s.req.Done() {
 		return &Violation{Property: "C07", Rule: "R0", Signature: "not-terminated", Detail: "request did not finish"}
 	}
